@@ -11,7 +11,8 @@ RULE = ("A = U diag(s) V' with prescribed cond in [1,1e3] and overall scale over
         "n <= 8; unconstrained / boxes centred near or away from the unconstrained minimiser / scaled; npt in [n+1, 2n+1]; default "
         "maxfun and rhoend. Oracle: scipy.optimize.lsq_linear (bvls and trf must agree) gives f*; require exact feasibility, "
         "obj - f* <= 1e-6(1+f*), success flag. Non-trivial = at least one bound active at the oracle's solution, or m != n; "
-        "distinct by configuration hash")
+        "distinct by configuration hash"
+        ' Second session: every second instance runs with do_logging=False.')
 ASSUMPTIONS = ["scipy.optimize.lsq_linear (two independent methods cross-checked to 1e-9(1+f*)) is the reference for f*",
                "a case where dfols beats the reference by more than 1e-9(1+f*) indicts the oracle and is inconclusive"]
 N = {"quick": 3000, "thorough": 20000}
